@@ -263,6 +263,9 @@ class NDNApp:
                 del self._int_tree[node_name]
             raise InterestTimeout()
         except aio.CancelledError:
+            # Take the cancelled Interest out of the tree; otherwise it stays there with a cancelled future
+            if node.timeout(future) and self._int_tree.get(node_name) is node:
+                del self._int_tree[node_name]
             raise InterestCanceled()
         if validator is None:
             validator = self.data_validator
